@@ -357,7 +357,8 @@ func genCase(g *vlib.Rng, idx int) caseT {
 
 // genFlags: a flag word for PutExt / ApplyFlags / a walk result. Mostly the meaningful bits (NO_BROWSE 1, NO_CACHE 2,
 // YES_CACHE 8, YES_BROWSE 16 and their combinations), sometimes any other 32-bit word: the bit of value 4 alone and with NO_CACHE
-// (4, 6), the top bit, all ones, random words. A walk result never carries the bit of value 4 (BR_ABORT: see abortStream).
+// (4, 6), the top bit, all ones, random words. With walk = true the bit of value 4 (BR_ABORT) is left out: genWalk / abortWord
+// put it in on purpose, so that the histogram knows about it.
 func genFlags(g *vlib.Rng, walk bool) uint32 {
 	var f uint32
 	switch x := g.Intn(10); {
@@ -417,7 +418,8 @@ func genWalk(g *vlib.Rng, keys []uint64) string {
 	return strings.Join(ps, ",")
 }
 
-// BR_ABORT: the walk function aborts at the first record — checked against the Go map only.
+// bare BR_ABORT at every record of a fresh store: the walk function aborts at the first record — checked against the Go map only
+// (BR_ABORT inside histories, combined with flag answers, compared with the model too: genWalk, genCase, corpus).
 func abortStream(g *vlib.Rng, n int) {
 	for i := 0; i < n && r.Violations() == 0; i++ {
 		if W.dead {
